@@ -53,6 +53,7 @@ def run(rep, idx, tier):
     rep.require("C19.12", 25)
     rep.require("C19.15", 2)
     rep.require("C19.16", 15)
+    rep.require("C19.17", 1)
     rules(rep, idx, fixture=False)
     # positive fixture: the same rules must flag the committed bad example on every run
     fx = Index(os.path.join(os.path.dirname(os.path.dirname(os.path.abspath(__file__))), "fixtures", "c19"))
@@ -108,6 +109,8 @@ def rules(rep, idx, fixture):
         # A1 (asserts are invariants that may be ignored -- python -O removes them) is only sound when no assert changes state
         from . import glue as _glue16
         _glue16.pure_asserts(rep, "C19.16", idx, ("",))
+        # an accepted layout is never refused at elaboration for want of one more doubling of the shadow
+        _glue16.shadow_give_up_bound(rep, idx, "C19.17")
     if not fixture:
         from . import glue as _glue
         _glue.param_refusals(rep, "C19.12", idx)
@@ -259,6 +262,36 @@ def shared_state(rep, idx, rule="C19.9", classes=None):
                                     "same mutable object", line=x.lineno)
     rep.ok(rule, "-", "default arguments and class attributes hold no mutable object", f"{n} default(s) / class attribute(s) classified",
            nontrivial=n > 0)
+    # (c) an instance does not take over another object's private container: `self._x = other._x` makes the two objects share one
+    #     dict / list / set, and a later change of either shows in both
+    m_ = 0
+    for f in idx.all_functions():
+        if not in_scope(f.cls) or f.cls is None or not f.params or f.params[0] != "self":
+            continue
+        containers = set()
+        init = f.cls.method("__init__")
+        if init is not None:
+            for st in ast.walk(init.node):
+                if isinstance(st, ast.Assign) and len(st.targets) == 1 and isinstance(st.targets[0], ast.Attribute) and \
+                        isinstance(st.targets[0].value, ast.Name) and st.targets[0].value.id == "self" and \
+                        _mutability(idx, st.value, init) == "mutable":
+                    containers.add(st.targets[0].attr)
+        for st in ast.walk(f.node):
+            if not (isinstance(st, ast.Assign) and len(st.targets) == 1 and isinstance(st.targets[0], ast.Attribute) and
+                    isinstance(st.targets[0].value, ast.Name) and st.targets[0].value.id == "self"):
+                continue
+            v = st.value
+            cands = [v.body, v.orelse] if isinstance(v, ast.IfExp) else [v]
+            for cand in cands:
+                if isinstance(cand, ast.Attribute) and cand.attr.startswith("_") and not cand.attr.startswith("__") and \
+                        isinstance(cand.value, ast.Name) and cand.value.id != "self" and cand.value.id in f.params and \
+                        (cand.attr in containers or st.targets[0].attr in containers):
+                    m_ += 1
+                    rep.bad(rule, f.site, f"`{ast.unparse(st)[:70]}`",
+                            f"takes over the private container `{ast.unparse(cand)}` of another object instead of copying its entries: the two "
+                            "objects then share one container, and what is later added to one of them appears in the other (a name assigned in "
+                            "one map becomes taken in an unrelated one)", line=st.lineno)
+    rep.count("adopted_containers", m_)
 
 
 # ---- C19.11 identity comparison between values -------------------------------------------------------------------
